@@ -145,7 +145,7 @@ fn exec(c: &Case) -> Vec<String> {
     std::thread::spawn(move || {
         let _ = tx.send(guarded(exec_inner, &c2));
     });
-    rx.recv_timeout(Duration::from_secs(10)).unwrap_or_else(|_| vec!["blocked".into()])
+    rx.recv_timeout(Duration::from_secs(10 * nvh::load_factor() as u64)).unwrap_or_else(|_| vec!["blocked".into()])
 }
 
 fn main() {
